@@ -105,11 +105,13 @@ def init_only(prog):
     return good
 
 
-def static_state_rule(prog, chk, rule, unit_prefixes, floor=1, exclude_units=()):
+def static_state_rule(prog, chk, rule, unit_prefixes, floor=1, exclude_units=(), only_functions=None):
     n = 0
     once = init_only(prog)
     for fn in sorted(prog.functions(), key=lambda f: (f.unit, f.name)):
         if not fn.unit.startswith(tuple(unit_prefixes)) or fn.unit.startswith(tuple(exclude_units)):
+            continue
+        if only_functions is not None and fn.sname not in only_functions:
             continue
         n += 1
         if fn.key in once:
